@@ -233,7 +233,12 @@ func AnalyzeCallee(logf func(string, ...any), fset *token.FileSet, pkg *types.Pa
 		}
 		return true
 	}
-	visit(decl)
+	// sacheck: only the body is scanned for free references.  The upstream code also scans the signature, which
+	// makes every method of a type whose receiver variable has the type's own name (`func (client *client) …`,
+	// the convention of the analysed repository) un-inlinable into its siblings ("typename is shadowed by a var").
+	// The signature's type names are needed only when a parameter cannot be substituted and a binding declaration
+	// is emitted; normalise.go type-checks every result and discards an inlining that does not compile.
+	visit(decl.Body)
 
 	// Analyze callee body for "return expr" form,
 	// where expr is f() or <-ch. These forms are
